@@ -119,6 +119,9 @@ func (c *c17) RunCase(w *core.Worker, idx int, seed uint64, res *core.CaseResult
 	if rng.Chance(1, 2) {
 		running["/cons/mst/e"] = "true"
 	}
+	if rng.Chance(3, 4) {
+		running["/ifx"] = "x1"
+	}
 	var upds []*cache.Update
 	for _, k := range sortedKeys(running) {
 		var tv *sdcpb.TypedValue = model.MkTv(running[k])
@@ -235,6 +238,24 @@ func (c *c17) RunCase(w *core.Worker, idx int, seed uint64, res *core.CaseResult
 			ifn := []string{"t0", "t1", "r0", "r1", "b0"}[rng.Intn(5)]
 			vals[fmt.Sprintf("/if[name=%s]/unit[id=%d]/chk2", ifn, 200+u)] = "c"
 		}
+		// ... and a must over a default in another branch (/sys/log/level): the container is not in the tree, the first
+		// validator that gets there inserts it while the others are on their way to it
+		nChk3 := rng.Intn(30)
+		for u := 0; u < nChk3; u++ {
+			ifn := []string{"t0", "t1", "r0", "r1", "b0"}[rng.Intn(5)]
+			vals[fmt.Sprintf("/if[name=%s]/unit[id=%d]/chk3", ifn, 300+u)] = "c"
+		}
+		// ... and a leafref and a must to a leaf at the top of the tree that only the running store holds (where the tree
+		// is built without the running store the validators fetch it, several at once)
+		nChk4 := rng.Intn(30)
+		for u := 0; u < nChk4; u++ {
+			ifn := []string{"t0", "t1", "r0", "r1", "b0"}[rng.Intn(5)]
+			if rng.Chance(1, 2) {
+				vals[fmt.Sprintf("/if[name=%s]/unit[id=%d]/chk4", ifn, 400+u)] = []string{"x1", "x1", "x1", "x2"}[rng.Intn(4)]
+			} else {
+				vals[fmt.Sprintf("/if[name=%s]/unit[id=%d]/chk5", ifn, 400+u)] = "c"
+			}
+		}
 		if rng.Chance(1, 4) {
 			vals["/if[name=t0]/enabled"] = "false"
 		}
@@ -336,7 +357,7 @@ func (c *c17) RunCase(w *core.Worker, idx int, seed uint64, res *core.CaseResult
 	var treeRef string
 	for i := 0; i < 4 && len(res.Findings) == 0; i++ {
 		runtime.GOMAXPROCS([]int{prev, 16, 4, 2}[i])
-		v, err := c.treeValidate(run, step, i == 0, false)
+		v, err := c.treeValidate(run, step, i == 0, false, false)
 		if err != nil {
 			res.Inconclusive("C17/tree-mode", "%v", err)
 			break
@@ -355,7 +376,7 @@ func (c *c17) RunCase(w *core.Worker, idx int, seed uint64, res *core.CaseResult
 	var lazyRef string
 	for i := 0; i < 4 && len(res.Findings) == 0; i++ {
 		runtime.GOMAXPROCS([]int{prev, 16, 4, 2}[i])
-		v, err := c.treeValidate(run, step, i == 0, true)
+		v, err := c.treeValidate(run, step, i == 0, true, false)
 		if err != nil {
 			res.Inconclusive("C17/tree-mode", "lazy index: %v", err)
 			break
@@ -369,6 +390,29 @@ func (c *c17) RunCase(w *core.Worker, idx int, seed uint64, res *core.CaseResult
 			res.Violate("C17/verdict-differs/tree-concurrent-vs-sequential/lazy-index", "tree built with the tree package, key indexes loaded during validation, concurrent run %d differs from the sequential reference\n--- concurrent\n%s\n--- sequential\n%s\n  transaction: %s", i, v, lazyRef, stepString(step))
 		}
 	}
+	// ---- the same on trees that do not hold the running store: validators load the running values they need on demand
+	// (leafref targets, must operands), several of them the same value at the same time
+	var odRef string
+	lazyBefore := lazyLoads.Load()
+	for i := 0; i < 4 && len(res.Findings) == 0; i++ {
+		runtime.GOMAXPROCS([]int{prev, 16, 4, 2}[i])
+		validating.Store(false)
+		v, err := c.treeValidate(run, step, i == 0, false, true)
+		validating.Store(false)
+		if err != nil {
+			res.Inconclusive("C17/tree-mode", "running on demand: %v", err)
+			break
+		}
+		res.Count("tree_validations_with_running_loaded_on_demand", 1)
+		if i == 0 {
+			odRef = v
+			continue
+		}
+		if v != odRef {
+			res.Violate("C17/verdict-differs/tree-concurrent-vs-sequential/running-on-demand", "tree built with the tree package, running values loaded by the validators, concurrent run %d differs from the sequential reference\n--- concurrent\n%s\n--- sequential\n%s\n  transaction: %s", i, v, odRef, stepString(step))
+		}
+	}
+	res.Count("on_demand_loads_during_tree_validation", int(lazyLoads.Load()-lazyBefore))
 	runtime.GOMAXPROCS(prev)
 	res.Count("validations", len(verdicts))
 	res.Count("validate_calls", int(validateCalls.Load()))
@@ -430,7 +474,7 @@ func b2i(b bool) int {
 
 // treeValidate builds the tree of the transaction the way lowlevelTransactionSet does (old content of the intents flagged
 // for deletion, new content, the best alternatives of the other owners, the running store) and validates it.
-func (c *c17) treeValidate(run *histRun, step []stepIntent, sequential bool, lazyIndex bool) (string, error) {
+func (c *c17) treeValidate(run *histRun, step []stepIntent, sequential bool, lazyIndex bool, onDemand bool) (string, error) {
 	ctx := run.ctx
 	var cc cache.Client = c.h.env.Cache
 	var validating atomic.Bool
@@ -491,9 +535,12 @@ func (c *c17) treeValidate(run *histRun, step []stepIntent, sequential bool, laz
 			return "", err
 		}
 	}
-	upds, err := tcc.ReadRunningFull(ctx)
-	if err != nil {
-		return "", err
+	var upds []*cache.Update
+	if !onDemand {
+		upds, err = tcc.ReadRunningFull(ctx)
+		if err != nil {
+			return "", err
+		}
 	}
 	for _, u := range upds {
 		nu := cache.NewUpdate(u.GetPath(), u.Bytes(), tree.RunningValuesPrio, tree.RunningIntentName, 0)
